@@ -276,6 +276,11 @@ def check(pid, tier, seed):
     if pid in ("C11", "C01"):
         from . import hubprop
         hubcov = hubprop.hub_part(R, pid, tier, seed)
+    if pid == "C11":
+        # the application's setup / disconnect notifications against the registry, on two real hubs (double connections,
+        # silent partitions, restarts)
+        from . import twohubs
+        hubcov.update(twohubs.th_part(R, pid, tier, seed))
     pipecov = None
     if pid == "C06":
         pipecov = pipe_part(R, tier, seed)
